@@ -602,7 +602,13 @@ pub fn run(_params: &Params) {
     let iat = now_h - [0i64, 1, 30][ctx::choose(3)] + if ctx::chance(1, 8) { 5 } else { 0 };
     let kb_claims = KeyBindingJwtClaims::new(&Sha256Hasher::new(), it.jwt.clone(), disclosures.clone(), nonce.clone(), aud.clone(), iat);
     let kb_payload = serde_json::to_string(&kb_claims).unwrap();
-    let kb_opts = JwsSignatureOptions::default().typ(KeyBindingJwtClaims::KB_JWT_HEADER_TYP.to_owned());
+    let mut kb_opts = JwsSignatureOptions::default().typ(KeyBindingJwtClaims::KB_JWT_HEADER_TYP.to_owned());
+    // one holder in five repeats the nonce in the protected header of the KB-JWT as well (a JWS header nonce)
+    let kb_header_nonce: Option<String> = if ctx::choose(5) == 0 { Some(nonce.clone()) } else { None };
+    if let Some(hn) = &kb_header_nonce {
+      kb_opts = kb_opts.nonce(hn.clone());
+      ctx::stat("probe.kb_jwt_with_header_nonce");
+    }
     let kb_frag = if holder.methods.iter().any(|m| m.0 == "alt") && ctx::choose(4) == 0 { "alt" } else { "kb" };
     let Ok(mut kb) = sign_raw(holder, kb_frag, kb_payload.as_bytes(), &kb_opts) else { continue };
     let kb_kid = format!("{}#{kb_frag}", holder.did);
@@ -931,6 +937,14 @@ pub fn run(_params: &Params) {
     if let Some(n) = &opt_nonce {
       ko = ko.nonce(n.clone());
     }
+    // the verifier's JWS options may carry a nonce of their own (a header nonce; a KB-JWT has none and the library
+    // does not compare it for KB-JWTs): the nonce a KB-JWT is bound to is the one of the KB options, whatever that
+    // other one says - also when it happens to equal the nonce claim of the token
+    let mut jws_nonce: Option<String> = None;
+    if ctx::choose(6) == 0 || (kb_header_nonce.is_some() && ctx::choose(2) == 0) {
+      jws_nonce = Some(if ctx::choose(3) != 0 { nonce.clone() } else { "header-nonce".to_owned() });
+      ctx::stat("probe.kb_jws_options_with_a_nonce_of_their_own");
+    }
     let opt_aud: Option<String> = match ctx::weighted(&[5, 1, 1, 1]) {
       0 => Some(aud.clone()),
       1 => Some("https://other-verifier.example".to_owned()),
@@ -960,6 +974,9 @@ pub fn run(_params: &Params) {
     let mut jo = JwsVerificationOptions::default();
     if let Some(s) = scope {
       jo = jo.method_scope(to_scope(s));
+    }
+    if let Some(n) = &jws_nonce {
+      jo = jo.nonce(n.clone());
     }
     // the verifier may name the method itself instead of trusting the kid (the scope still applies to it)
     let opt_method_id: Option<String> = match ctx::weighted(&[8, 2, 1, 1]) {
